@@ -213,7 +213,7 @@ package streams
 //@ [C12] at call strconv.ParseInt#6: ghost gDurS = $res0
 //@ [C12] ensures years_of_365_days_months_of_30_days: result1 == nil ==> this.dyn == typetag("string") && (result0 == 1000000000 * (gDurY * 8760 * 3600 + gDurMo * 720 * 3600 + gDurD * 24 * 3600 + gDurH * 3600 + gDurMi * 60 + gDurS) || result0 == 0 - 1000000000 * (gDurY * 8760 * 3600 + gDurMo * 720 * 3600 + gDurD * 24 * 3600 + gDurH * 3600 + gDurMi * 60 + gDurS))
 // the pattern P(\d*Y)?(\d*M)?(\d*D)?(T(\d*H)?(\d*M)?(\d*S)?)? matches every string that starts with 'P' and has 7 groups
-//@ [C11] at call (*regexp.Regexp).FindStringSubmatch#1: assume!post a_P_prefixed_string_always_matches_with_seven_groups: len($res0) == 8
+//@ [C11] at call (*regexp.Regexp).FindStringSubmatch#1: assume!post a_P_prefixed_string_always_matches_this_unanchored_pattern_with_seven_groups: rePattern($arg0) == "P(\\d*Y)?(\\d*M)?(\\d*D)?(T(\\d*H)?(\\d*M)?(\\d*S)?)?" ==> len($res0) == 8
 //@ [C11] ensures terminates_without_panic: true
 
 //@ func streams/values/duration.LessDuration
